@@ -407,6 +407,16 @@ def check_property(prop, tier, seed):
             elif extra:
                 proof_broken = "theorems depend on undeclared axioms: " + ", ".join(extra)
 
+    # 2b. thorough tier: independent re-check of the compiled theorems
+    coqchk_report = None
+    if tier == "thorough" and proof_broken is None:
+        rc3, out3 = sh(["coqchk", "-silent", "-o", "-Q", "theories", "Galene",
+                        "Galene.Properties." + prop], cwd=COQ, timeout=5400, quiet=True)
+        m3 = re.search(r"CONTEXT SUMMARY(.*)", out3, re.S)
+        coqchk_report = (m3.group(1).strip() if m3 else out3[-1500:])[:3000]
+        if rc3 != 0:
+            proof_broken = "coqchk rejects Properties/%s.vo: %s" % (prop, out3[-800:])
+
     # 3. correspondence + monitors
     drv_broken = None
     model_broken = None
@@ -509,6 +519,7 @@ def check_property(prop, tier, seed):
             "samples": samples[:12] if samples else ["(no driver ran)"],
             "input_distribution": dist,
             "known_findings_seen": known_seen,
+            "coqchk": coqchk_report,
             "explanation": cfg.get("explanation", ""),
         },
         "assumptions": cfg.get("assumptions", []) + props.COMMON_ASSUMPTIONS,
